@@ -1,4 +1,4 @@
-"""C09 - key serialisation round-trips exactly (decided statically, except the bit packing itself).
+"""C09 - key serialisation round-trips exactly (byte identity decided statically for all keys).
 
 Keys are stored as NTT / Montgomery precomputes; into_bytes inverts them.  For EVERY public-key byte
 string and EVERY private-key byte string that deserialisation accepts:
@@ -14,10 +14,15 @@ string and EVERY private-key byte string that deserialisation accepts:
       256*k (resp. 256*(l+2k)) coefficients must be EXACTLY its own symbol, in order.  Hence
       t1' = t1 for all t1 in [0,1023]^(256k) (incl. all-0, all-1023) and (s1,s2,t0)' = (s1,s2,t0)
       for all accepted values (incl. every coefficient at -eta, +eta, t0 at both range ends).
-  P4  encoder and decoder use identical byte ranges that tile the encoding and equal the FIPS layout;
-      each field decoder accepts exactly the coefficient range the encoder may emit (C08 R2, R3).
-Not decided: that BitPack(BitUnpack(v)) = v bit for bit on accepted fields (quantified bit-level
-relation), and behavioural equality of a re-deserialised generated key beyond P2-P4.
+  P4  the byte codecs: encoder and decoder use identical byte ranges that tile the encoding and equal
+      the FIPS layout; each field decoder accepts exactly the coefficient range the encoder may emit;
+      and pkEncode(pkDecode(b)) = b, skEncode(skDecode(b)) = b BIT FOR BIT for every accepted b
+      (every input bit a boolean symbol, bit fields followed as exact forms) - C08 R2, R3, R4.
+P3 and P4 together give into_bytes(try_from_bytes(b)) = b for every accepted b: try_from_bytes is
+the precompute of decode(b), into_bytes encodes the inverse precompute, P3 says the two precomputes
+cancel on every decoded coefficient vector, P4 says encode undoes decode.
+Not decided: behavioural equality of a re-deserialised generated key as a struct (the
+precomputes are equal modulo q; representative equality is not shown).
 """
 import os
 import sys
@@ -133,15 +138,15 @@ def main(tier):
             ob(ok_len, "P3:roundtrip-total:%s" % kind, {"rule": "P3 the round trip returns an encoding for every accepted input", "set": s, "result": j["partitions"]})
             samples.append({"set": s, "key": kind, "coefficients": 256 * npoly, "exactly_recovered": ip[0]["exact"] if ip else None, "symbols": ip[0]["runs"][:160] if ip else None,
                             "abstract_steps": j["steps"]})
-    s8, n8 = c08.analyse(rep, ob, ["44", "65", "87"], rules=("R2", "R3"), prefix="P4:", codecs=("pk", "sk"))
+    s8, n8 = c08.analyse(rep, ob, ["44", "65", "87"], rules=("R2", "R3", "R4"), prefix="P4:", codecs=("pk", "sk"))
     cov = {
         "obligations": cnt[0], "discharged": cnt[1],
         "checker_cmd": "python3 bin/check C09 (driver ai mode, LIN tier: named coefficient symbols, linear forms modulo q through the transforms; exact-copy provenance of byte fields)",
-        "trusted_base": ["abstract interpreter soundness (linear congruence domain, exactification by range)", "BitPack / BitUnpack are mutually inverse on accepted fields (not decided)"],
+        "trusted_base": ["abstract interpreter soundness (linear congruence domain, exactification by range, bit-field split rule)"],
         "samples": samples,
         "explanation": "P3 is a proof for all keys at once: the decoded coefficients are symbols, not samples; extremal patterns are members of the symbol ranges",
     }
-    return rep.finish("other", cov, ["bit-level inverse of the field codecs not decided"])
+    return rep.finish("proof", cov, ["abstract interpreter soundness"])
 
 
 if __name__ == "__main__":
